@@ -609,8 +609,27 @@ int aws_date_time_init_from_str(
 }
 
 static inline int s_date_to_str(const struct tm *tm, const char *format_str, struct aws_byte_buf *output_buf) {
+    /* The day and month names of RFC 822 are the English abbreviations whatever the LC_TIME locale of the application
+     * says (and they are the only ones the parser reads back), so %a and %b are filled in here instead of by strftime. */
+    static const char *const s_day_names[] = {"Sun", "Mon", "Tue", "Wed", "Thu", "Fri", "Sat"};
+    static const char *const s_month_names[] = {
+        "Jan", "Feb", "Mar", "Apr", "May", "Jun", "Jul", "Aug", "Sep", "Oct", "Nov", "Dec"};
+    char format[64];
+    size_t format_len = 0;
+    for (const char *c = format_str; *c != '\0' && format_len + 4 < sizeof(format); ++c) {
+        if (c[0] == '%' && (c[1] == 'a' || c[1] == 'b')) {
+            const char *name = c[1] == 'a' ? s_day_names[(unsigned)tm->tm_wday % 7] : s_month_names[(unsigned)tm->tm_mon % 12];
+            memcpy(format + format_len, name, 3);
+            format_len += 3;
+            ++c;
+        } else {
+            format[format_len++] = *c;
+        }
+    }
+    format[format_len] = '\0';
+
     size_t remaining_space = output_buf->capacity - output_buf->len;
-    size_t bytes_written = strftime((char *)output_buf->buffer + output_buf->len, remaining_space, format_str, tm);
+    size_t bytes_written = strftime((char *)output_buf->buffer + output_buf->len, remaining_space, format, tm);
 
     if (bytes_written == 0) {
         return aws_raise_error(AWS_ERROR_SHORT_BUFFER);
